@@ -26,6 +26,7 @@ class Interp(object):
         self.config = config or {}
         self.yield_hook = None
         self.gen_depth = 0
+        self.ghost = {}
 
     # ------------------------------------------------------------------ module loading
     def load_module(self, name):
@@ -809,10 +810,10 @@ class Interp(object):
         k0 = base.pos
         k = smt.fresh_int('k')
         pre_out = ctx.out
-        if getattr(base, 'table', None) is not None:
+        if getattr(base, 'table', None) is not None and getattr(self, 'check_pulls', True):
             ctx.oblige('%s: before the first data row is requested at most the header row has been pulled' % label,
                        k0 <= 1, self.where(node), 'pull')
-        for t in getattr(ctx, 'tables', []):
+        for t in (getattr(ctx, 'tables', []) if getattr(self, 'check_pulls', True) else []):
             for other in getattr(t, 'iterators', []):
                 if other is not base and not getattr(other, 'pull_checked', False) and not getattr(other, 'looped', False):
                     other.pull_checked = True
@@ -839,8 +840,9 @@ class Interp(object):
                 raise Unsupported('break inside a loop verified by the stateless-body rule at %s' % self.where(node))
             spec.delta(st, x, dout)
             # C02 (laziness): one iteration pulls exactly its own row -- no read-ahead, no materialisation
-            ctx.oblige('%s: an iteration pulls no source row besides its own (no read-ahead)' % label,
-                       base.pos == k + 1, self.where(node), 'pull')
+            if getattr(self, 'check_pulls', True):
+                ctx.oblige('%s: an iteration pulls no source row besides its own (no read-ahead)' % label,
+                           base.pos == k + 1, self.where(node), 'pull')
             raise PathEnd()
         else:
             base.exhausted_seen = True
@@ -850,6 +852,10 @@ class Interp(object):
             ctx.pre_loop_out = pre_out
             ctx.out = Seq(smt.fresh_arr('post_out'), z3.IntVal(0), 'list', 'Ghost')
             ctx.after_loop = label
+            if spec.on_exit is not None:
+                ls = LoopState(self, env, SInt(base.n))
+                ls.k0 = SInt(k0)
+                spec.on_exit(ls, z3.simplify(base.n - k0))
             self.exec_block(node.orelse, env)
 
     def havoc(self, node, env, spec):
@@ -874,6 +880,8 @@ class Interp(object):
             ty = spec.types.get(nm)
             if ty == 'keep':
                 continue
+            if isinstance(cur, (SrcIter, MapIter)):
+                continue         # iterators: their position is havocked by the loop rule itself
             self.set_var(env, nm, self.fresh_like(cur, nm, ty))
         for nm in sorted(mutated - assigned):
             if not env.has(nm):
@@ -957,6 +965,8 @@ class Interp(object):
                 p = smt.fresh_int(nm + '_pos')
                 ctx.assume(z3.And(b.pos <= p, p <= b.n))
                 b.pos = p
+        for g in spec.ghost:
+            self.ghost[g] = SInt(smt.fresh_int('ghost_' + g))
         st = LoopState(self, env, None)
         ctx.assume(spec.invariant(st))
         if self.truth(self.eval(node.test, env)):
@@ -969,6 +979,10 @@ class Interp(object):
             ctx.oblige('%s: invariant preserved' % label, spec.invariant(LoopState(self, env, None)), self.where(node), 'inv-step')
             raise PathEnd()
         else:
+            if getattr(spec, 'at_exit', None) is not None:
+                spec.at_exit(LoopState(self, env, None))
+            if spec.stop_after:
+                raise PathEnd()
             self.exec_block(node.orelse, env)
 
 
